@@ -605,7 +605,7 @@ func grid(tier string) []Spec {
 				if cipher != 3 {
 					// the server's own output reflected (whole, and cut after 60 bytes); aes-128-gcm's
 					// 16-byte salt cannot carry the mark
-					for _, cache := range []int{0, 100} {
+					for _, cache := range []int{-1, 0, 100} { // no history at all (nil), disabled, on
 						for _, n := range []int{0, 60} {
 							out = append(out, Spec{Cipher: cipher, Keys: nk, Kind: "reflect", N: n, Client: cl, Cache: cache})
 						}
